@@ -516,7 +516,8 @@ func genCase(t *rapid.T, many bool) Case {
 		if strings.Count(parent, "/") >= 3 {
 			continue
 		}
-		d := rapid.SampledFrom([]string{"a", "b", "c", "d"}).Draw(t, "dname")
+		// sibling names that are string prefixes of each other (a / ab / a.d), a dot name, upper case
+		d := rapid.SampledFrom([]string{"a", "ab", "b", "a.d", ".c", "B"}).Draw(t, "dname")
 		if parent != "." {
 			d = parent + "/" + d
 		}
